@@ -172,7 +172,7 @@ pub fn main(args: &Args) {
         }
         out.finish()
     });
-    println!("{}", json!({"family": "isa", "events": lines, "cases": lines / 2}));
+    println!("\n{}", json!({"family": "isa", "events": lines, "cases": lines / 2}));
 }
 
 /// Re-execute the cases of a replay file (`[set, exec, set, exec ...]` events) on the current tree.
@@ -206,5 +206,5 @@ pub fn replay(args: &Args) {
         }
         out.finish()
     });
-    println!("{}", json!({"family": "isa", "events": lines, "cases": lines / 2}));
+    println!("\n{}", json!({"family": "isa", "events": lines, "cases": lines / 2}));
 }
